@@ -214,6 +214,15 @@ class Session:
             RE.msg_hook = self._msg_hook
             RE.state_hook = self._state_hook
             RE.subscribe(self._doc_cb)
+            cbfail = getattr(self.scn, "params", {}).get("cbfail")
+            if cbfail is not None:
+                # a second document consumer that fails on the cbfail-th document of the session (a fault of the
+                # environment like a device fault; the observing subscriber above has already seen the document)
+                def failing_subscriber(name, doc):
+                    if len(self.docs) - 1 == cbfail:
+                        raise SubscriberError(f"subscriber failed on document #{cbfail} ({name})")
+
+                RE.subscribe(failing_subscriber)
             self.scn.configure(RE, self.d)
             if hasattr(self.scn, "apply_common"):
                 self.scn.apply_common(RE, self.d)
@@ -524,6 +533,10 @@ def _run_lines():
                 fin = first + i
         _RUN_LINES = (exc or 10**9, fin or 10**9)
     return _RUN_LINES
+
+
+class SubscriberError(RuntimeError):
+    pass
 
 
 def run_phase(RE):
